@@ -1,4 +1,66 @@
-"""C03 - downloaded log and parameter tables equal the device tables.  (work in progress)"""
+"""C03 - downloaded log and parameter tables equal the device tables.
+
+Functions under contract: toc.TocFetcher.start/_new_packet_cb/_request_toc_element/_toc_fetch_finished, toc.Toc.add_element/
+get_element/get_element_id/get_element_by_id/get_element_by_complete_name, log.LogTocElement.__init__, param.ParamTocElement.
+__init__/mark_persistent/is_persistent/is_extended/get_readable_access, log.Log.refresh_toc/_new_packet_cb (reset branch)/
+_send_reset_packet, param.Param.refresh_toc (incl. the nested refresh_done), param._ExtendedTypeFetcher.__init__/_new_packet_cb/
+request_extended_types/set_callback/run/_close.
+
+Style: histories of REAL calls on REAL objects (real constructors) against a device model written in the contract.  The device
+holds a table T = [(type byte, group, name)], a checksum and answers whatever request the library transmits, in the generation
+of that request (the firmware implements both); the contract injects duplicated / stale / delayed packets and finally compares
+the library's table with T and the three lookups with each other.  The type tables LOG_TYPES / PARAM_TYPES and the flag bits
+below are the peer's (firmware log.h / param.h), written down here independently of the library (trusted).
+
+How the clauses of the design (DESIGN.md, C03, O1..O6) are decided
+  O1 request encoding ............ request.v2 (every index 0..65535), request.v1 (0..255; larger refused, nothing sent)
+  O2 download step / invariant ... info.reply.* (announced size 0..65535 / 0..255, checksum, trailing bytes), step.accept.* (reply for the
+                                   outstanding index r, ANY 0 <= r < N <= 65535: exactly entry r gained, r+1 requested or completion),
+                                   step.ignore.* (ANY other packet on the port - other index incl. later ones, repeated info reply,
+                                   other channel: nothing changes, nothing sent).  The steps start from a state reached by real calls
+                                   (start + info reply) moved to "entry r outstanding" with c.set - this is the inductive step of the
+                                   representation invariant, which is how indices beyond the 8-bit boundary are covered.
+  O3 completion .................. fetch.<kind>.n<N>.<fault> whole downloads for N = 0, 1, 2, 3, both generations (protocol version
+                                   symbolic, switch at 4), faults none / dup / stale / info-again / other-channel, cache = recording stub
+                                   that misses, or the real TocCache() without directories (.realcache); fetch.cache-hit;
+                                   log.refresh_toc.* and param.refresh_toc.*: the same from the entry points the connection sequence
+                                   calls, with every packet delivered to ALL callbacks registered on the port (class Bus)
+  O4 element decoders ............ decode.<kind>.lenNN: every split of every total group+name length 0..25 (= all that fit a 30-byte
+                                   packet after command, index, type and two NULs), every type code of the peer table, every NUL-free
+                                   byte content, every index: complete, not a sample
+  O5 lookup agreement ............ toc.lookups.K (K = 0..3 entries, symbolic names and indices incl. 0 and > 255, every way the entries
+                                   share groups), and again on every downloaded table in fetch.* / log.* / param.*
+  O6 persistence markers ......... xtype.step (one packet, any outstanding index / count), param.refresh_toc.* (whole sequence:
+                                   requests for exactly the extended entries, completion after the last answer, is_persistent()
+                                   of every entry == device answer)
+
+ASSUMED
+ * the device answers a request for index i with the entry i of one fixed table T, well formed: type | group | NUL | name | NUL, group
+   and name NUL-free, type code in the peer table (an unknown code raises KeyError in the element constructor, the dispatcher
+   swallows it and the download stalls: outside the property); (group, name) pairs of T are unique; names contain no "." (C
+   identifiers) - with a "." in a name get_element_by_complete_name cannot find the entry (split('.') yields three parts);
+ * packets that are too short to hold the index field are not sent by the device (they would raise struct.error / IndexError out of
+   the callback; the dispatcher swallows it, nothing changes);
+ * the dispatcher delivers a packet to the callbacks registered when its dispatch starts, in order (C07); a callback unregistered
+   during completion therefore does not see a later duplicate;
+ * protocol generation: the firmware offers the 16-bit commands (2/3) from protocol version 4 on (peer fact);
+ * cache hit: the cached table equals the device table (C11).
+
+BOUNDED (stated per contract): whole-download histories use tables of 0..3 entries with fixed name lengths and, beyond entry 0 of
+ one-entry tables, two type codes per entry; table sizes up to 65535 and all indices are covered by the step contracts, all
+ lengths and type codes by decode.*.
+
+NOT COVERED (and why)
+ * the path from the completion callbacks to Crazyflie.connected (log -> memories -> parameters -> connected.call) belongs to C02;
+ * real threads: _ExtendedTypeFetcher.run is executed one loop iteration at a time in the schedule "one iteration, then the
+   reply" (the thread really blocks on its lock until the reply is handled on the dispatcher thread); other interleavings
+   are not explored; the blocked _ExtendedTypeFetcher thread and its never-removed port callback that every connection leaves
+   behind are not a table property;
+ * retransmission of unanswered requests (expected_reply patterns are checked here, the retry machinery is C10);
+ * symbolic-LENGTH names: lengths are enumerated exhaustively instead (decode.*), whole histories use fixed lengths.
+
+FINDING (unchanged tree, see section 9 at the end): xtype.foreign-command.
+"""
 from pyvc.api import contract
 
 TOC = 'cflib.crazyflie.toc'
@@ -17,8 +79,8 @@ LOG_TYPES = ((1, 'uint8_t', '<B'), (2, 'uint16_t', '<H'), (3, 'uint32_t', '<L'),
 PARAM_TYPES = ((0x08, 'uint8_t', '<B'), (0x09, 'uint16_t', '<H'), (0x0A, 'uint32_t', '<L'), (0x0B, 'uint64_t', '<Q'),
                (0x00, 'int8_t', '<b'), (0x01, 'int16_t', '<h'), (0x02, 'int32_t', '<i'), (0x03, 'int64_t', '<q'),
                (0x05, 'FP16', ''), (0x06, 'float', '<f'), (0x07, 'double', '<d'))
-PARAM_RO = 0x40
-PARAM_EXTENDED = 0x10
+# flag bits of the parameter type byte: 0x40 read-only, 0x10 extended type information available (0x20 core, 0x80 group marker:
+# no meaning for the table); a log type byte carries the code only (no access flags: access == 0)
 
 FETCH_F = [TOC + ':TocFetcher.start', TOC + ':TocFetcher._new_packet_cb', TOC + ':TocFetcher._request_toc_element',
            TOC + ':TocFetcher._toc_fetch_finished', TOC + ':Toc.add_element']
@@ -202,7 +264,8 @@ def _step_ignore(kind, v2, L):
               clause='download step, any other packet on the port - a reply carrying another index (duplicate of an earlier reply, delayed '
                      'reply to an earlier request, reply for a later index), a repeated table-info reply, a packet on another '
                      'channel - changes nothing and transmits nothing, whatever its content',
-              bounded='packet payload length %d (3/2 = index only, 9, 30 = maximum); content symbolic' % L)
+              bounded='packet payload length %d (3/2 = index only, 9, 30 = maximum); content symbolic' % L,
+              max_paths=200)        # 2-3 paths when the clause holds; a budget for trees in which junk reaches the decoders
     def k(c):
         f, toc = in_download(c, kind, v2)
         c.int('chan', 0, 3)
@@ -338,7 +401,8 @@ def _fetch(kind, N, fault, cache='stub'):
                      'signalled exactly once, after which the library table has exactly the device entries with the device\'s index, '
                      'type and access, and lookup by (group, name), by index and by complete name agree; fault scenario: %s' % (N, fault),
               bounded='%d entries with group/name lengths %r; type code of entry 0 %s, of later entries one of two; '
-                      'all lengths and type codes: decode.*; any index and table size: step.*' % (N, SHAPES[:N], 'any' if N == 1 else 'one of two'))
+                      'all lengths and type codes: decode.*; any index and table size: step.*' % (N, SHAPES[:N], 'any' if N == 1 else 'one of two'),
+              max_paths=300)        # at most 128 paths when the clauses hold; a budget for trees in which junk reaches the decoders
     def k(c):
         f, toc = fetcher(c, kind, cache)
         device_table(c, kind, N, wide_types=(N == 1))
@@ -403,5 +467,414 @@ for _kind in ('log', 'param'):
     for _N in (3, 2, 1, 0):
         for _fault in (('none', 'dup', 'stale', 'info-again', 'other-channel') if _N else ('none', 'other-channel')):
             _fetch(_kind, _N, _fault)
-    _fetch(_kind, 2, 'none', cache='real')
+    _fetch(_kind, 2, 'none', cache='real')       # the real TocCache without directories: always a miss, insert is a no-op
     _fetch(_kind, 0, 'none', cache='real')
+
+
+# ------------------------------------------------------------------------------------------------ 5. the three lookups agree
+
+TOC_F = [TOC + ':Toc.add_element', TOC + ':Toc.get_element', TOC + ':Toc.get_element_id', TOC + ':Toc.get_element_by_id',
+         TOC + ':Toc.get_element_by_complete_name']
+
+
+def _lookups(K):
+    @contract('C03', 'toc.lookups.%d' % K, TOC_F,
+              clause='for a table with unique indices and unique (group, name) pairs (names without "."), lookup by complete name, by '
+                     '(group, name) and by index return the same entry, for every entry - whatever its index (0 and > 255 included) and '
+                     'however the entries are spread over groups; names and indices not in the table yield None, never an exception',
+              bounded='%d entries, group and name of 2 characters each (any characters 1..255 except "."); indices 0..65535' % K)
+    def k(c):
+        toc = c.new(TOC + ':Toc')
+        c.let('toc', toc)
+        for j in range(K + 1):          # entry K is NOT in the table
+            c.str('g%d' % j, 2, lo=1, hi=255), c.str('n%d' % j, 2, lo=1, hi=255)
+            c.int('i%d' % j, 0, 65535)
+            c.require("all(ch != '.' for ch in g%d) and all(ch != '.' for ch in n%d)" % (j, j))
+            for h in range(j):
+                c.require('i%d != i%d and not (g%d == g%d and n%d == n%d)' % (j, h, j, h, j, h))
+        for j in range(K):
+            e = c.obj(LOG + ':LogTocElement', ident=c.get('i%d' % j), group=c.get('g%d' % j), name=c.get('n%d' % j))
+            c.let('e%d' % j, e)
+            c.call((toc, 'add_element'), e)
+            c.ensure('added-%d' % j, 'raised is None')
+        c.ensure('table-holds-all-entries', 'sum(len(grp) for grp in toc.toc.values()) == %d' % K)
+        for j in range(K):
+            c.call((toc, 'get_element'), c.get('g%d' % j), c.get('n%d' % j))
+            c.ensure('by-group-and-name-%d' % j, 'raised is None and result is e%d' % j)
+            c.call((toc, 'get_element_by_id'), c.get('i%d' % j))
+            c.ensure('by-index-%d' % j, 'raised is None and result is e%d' % j)
+            c.snapshot('cn', "g%d + '.' + n%d" % (j, j))
+            c.call((toc, 'get_element_by_complete_name'), c.get('cn'))
+            c.ensure('by-complete-name-%d' % j, 'raised is None and result is e%d' % j)
+            c.call((toc, 'get_element_id'), c.get('cn'))
+            c.ensure('index-of-complete-name-%d' % j, 'raised is None and result == i%d' % j)
+        # an entry the device does not have
+        c.call((toc, 'get_element'), c.get('g%d' % K), c.get('n%d' % K))
+        c.ensure('unknown-group-name-is-None', 'raised is None and result is None')
+        c.call((toc, 'get_element_by_id'), c.get('i%d' % K))
+        c.ensure('unknown-index-is-None', 'raised is None and result is None')
+        c.call((toc, 'get_element_by_complete_name'), c.snapshot('cn', "g%d + '.' + n%d" % (K, K)))
+        c.ensure('unknown-complete-name-is-None', 'raised is None and result is None')
+        c.call((toc, 'get_element_id'), c.get('cn'))
+        c.ensure('unknown-complete-name-has-no-index', 'raised is None and result is None')
+        c.call((toc, 'get_element_by_complete_name'), c.get('n%d' % K))
+        c.ensure('name-without-group-is-None', 'raised is None and result is None')
+    return k
+
+
+for _K in (0, 1, 2, 3):
+    _lookups(_K)
+
+
+# ------------------------------------------------------------------------------------------------ 6. cache hit
+
+@contract('C03', 'fetch.cache-hit', FETCH_F,
+          clause='cache present: when the cache returns a table for the checksum the device announces, that table becomes the library table, '
+                 'completion is signalled exactly once, and no entry is requested from the device (that the cached table equals the device '
+                 'table is the cache property C11)',
+          bounded='cached table of one group with one entry')
+def cache_hit(c):
+    kind = c.choice('kind', ['log', 'param'])
+    ver = c.int('ver', -1, 255)
+    cf = c.ext('cf', returns={'platform.get_protocol_version': ver})
+    toc = c.new(TOC + ':Toc')
+    el = c.ext('cached_element')
+    cached = c.dict([('grp', c.dict([('nm', el)]))])
+    c.let('cached', cached)
+    ca = c.ext('cache', returns={'fetch': cached})
+    fin = c.ext('finished')
+    f = c.new(TOC + ':TocFetcher', cf, c.cls(ELEMENT[kind]), PORT[kind], toc, fin, ca)
+    c.let('f', f), c.let('toc', toc), c.let('PORT', PORT[kind])
+    c.reset_trace()
+    c.call((f, 'start'))
+    c.require('raised is None')
+    c.int('N', 0, 65535), c.int('crc', 0, 2 ** 32 - 1)
+    c.require('implies(ver < 4, N <= 255)')
+    v2 = bool(c.concretize('ver >= 4'))
+    c.call((f, '_new_packet_cb'), packet(c, PORT[kind], 0, "pack('<BHI', 3, N, crc)" if v2 else "pack('<BBI', 1, N, crc)"))
+    c.ensure('no-exception', 'raised is None')
+    c.ensure('cache-asked-for-the-announced-checksum', "sent('cache.fetch')[0][1] == (crc,)")
+    c.ensure('cached-table-adopted', 'toc.toc is cached')
+    c.ensure('only-the-info-request-was-transmitted', "len(sent('cf.send_packet')) == 1")
+    c.ensure('completion-exactly-once-and-nothing-else', "calls() == ('cf.platform.get_protocol_version', 'cf.add_port_callback', 'cf.send_packet', "
+             "'cache.fetch', 'cf.remove_port_callback', 'finished')")
+    c.ensure('own-callback-unregistered', "sent('cf.remove_port_callback')[0][1][0] == PORT and sent('cf.remove_port_callback')[0][1][1] == f._new_packet_cb")
+
+
+# ------------------------------------------------------------------------------------------------ 7. Log.refresh_toc / Param.refresh_toc (what the connection sequence calls)
+
+class Bus:
+    """The Crazyflie object as seen by Log / Param / TocFetcher: records transmissions and keeps the port callbacks that
+    were registered, so that the contract can deliver a received packet to every callback registered for its port at that
+    moment, in registration order (the dispatcher's behaviour, property C07)."""
+
+    def __init__(self, c, link=True):
+        self.c = c
+        self.cbs = []
+        self.on_send = None         # optional effect of cf.send_packet (used to stop a service loop after one iteration)
+        self.ver = c.int('ver', -1, 255)
+        self.cf = c.ext('cf', attrs={'link': c.ext('link')} if link else None,
+                        returns={'platform.get_protocol_version': self.ver, 'add_port_callback': self._add,
+                                 'remove_port_callback': self._remove, 'send_packet': self._send})
+
+    @staticmethod
+    def _same(a, b):
+        if hasattr(a, 'self_obj'):
+            return a.self_obj is b.self_obj and a.func is b.func
+        return a == b
+
+    def _send(self, _i, args, _kw):
+        if self.on_send is not None:
+            self.on_send()
+
+    def _add(self, _i, args, _kw):
+        self.cbs.append((args[0], args[1]))
+
+    def _remove(self, _i, args, _kw):
+        for it in list(self.cbs):
+            if it[0] == args[0] and self._same(it[1], args[1]):
+                self.cbs.remove(it)
+                return
+
+    def deliver(self, port, channel, data_expr, tag):
+        c = self.c
+        pk = packet(c, port, 0, data_expr, 'rx_' + tag)
+        c.set(pk, 'channel', channel)
+        for p, cb in list(self.cbs):
+            if p == port:
+                c.call(cb, pk)
+                c.ensure('delivery-no-exception-' + tag, 'raised is None')
+        c.snapshot('trace', 'trace')
+
+
+def serve_download(c, bus, kind, N, first, dup=False):
+    """answer the TOC requests (transmission number `first` onwards) until no new one appears; returns their number"""
+    answered = 0
+    asked = []
+    while answered < N + 3:
+        if c.concretize("len(sent('cf.send_packet'))") != first + answered + 1:
+            break
+        last_request(c, first + answered)
+        c.ensure('request-on-toc-channel-%d' % answered, "rq.port == PORT and rq.channel == 0 and tuple(rq_kw['expected_reply']) == tuple(rq.data)")
+        c.ensure('generation-follows-protocol-version-%d' % answered,
+                 'rq.data[0] == ((3 if ver >= 4 else 1) if %d == 0 else (2 if ver >= 4 else 0))' % answered)
+        data, idx = device_answer(c, kind, N)
+        asked.append(idx)
+        c.snapshot('before', "len(sent('cf.send_packet'))")
+        bus.deliver(PORT[kind], 0, data, 'toc%d' % answered)
+        if dup:
+            bus.deliver(PORT[kind], 0, data, 'toc%ddup' % answered)
+        answered += 1
+    c.let('asked', tuple(asked))
+    c.ensure('info-then-each-index-once-in-order', 'asked == (None,) + tuple(range(N))')
+    return answered
+
+
+def _log_refresh(N, dup):
+    @contract('C03', 'log.refresh_toc.n%d%s' % (N, '.dup' if dup else ''),
+              FETCH_F + [LOG + ':Log.refresh_toc', LOG + ':Log._new_packet_cb', LOG + ':Log._send_reset_packet', LOG + ':LogTocElement.__init__'],
+              clause='log table, from Log.refresh_toc (as called by the connection sequence) to the completion callback: the log subsystem is '
+                     'reset, then the table is downloaded once - a duplicated reset acknowledgement does not start a second download - and when '
+                     'the completion callback runs Log.toc equals the device table; packets are delivered to every callback registered on the '
+                     'log port (the Log object itself and the fetcher)%s' % ('; every reply arrives twice' if dup else ''),
+              bounded='%d entries, lengths %r, two type codes per entry' % (N, SHAPES[:N]), max_paths=300)
+    def k(c):
+        kind = 'log'
+        bus = Bus(c)
+        log = c.new(LOG + ':Log', bus.cf)
+        c.let('log', log), c.let('PORT', 5)
+        device_table(c, kind, N, wide_types=False)
+        done = c.ext('toc_done')
+        cache = c.ext('cache', returns={'fetch': None})
+        c.reset_trace()
+        c.call((log, 'refresh_toc'), done, cache)
+        c.ensure('refresh-no-exception', 'raised is None')
+        c.ensure('only-the-reset-request-is-sent', "len(sent('cf.send_packet')) == 1 and len(sent('toc_done')) == 0")
+        last_request(c, 0)
+        c.ensure('reset-request', "rq.port == 5 and rq.channel == 1 and bytes(rq.data) == bytes([5]) and tuple(rq_kw['expected_reply']) == (5,)")
+        c.ensure('old-table-dropped', 'log.toc is None')
+        bus.deliver(5, 1, 'bytes([5, 0, 0])', 'reset')
+        c.ensure('download-started', "len(sent('cf.send_packet')) == 2")
+        if dup:
+            bus.deliver(5, 1, 'bytes([5, 0, 0])', 'resetdup')
+            c.ensure('duplicate-reset-ack-starts-nothing', "len(sent('cf.send_packet')) == 2")
+        serve_download(c, bus, kind, N, 1, dup)
+        c.ensure('completion-signalled-exactly-once', "len(sent('toc_done')) == 1 and sent('toc_done')[0][1] == ()")
+        c.ensure('transmissions-are-reset-info-and-one-per-entry', "len(sent('cf.send_packet')) == N + 2")
+        c.ensure('cache-fed-before-completion', "[n for n in calls() if n in ('cache.insert', 'toc_done')] == ['cache.insert', 'toc_done'] "
+                 "and sent('cache.insert')[0][1][0] == crc and sent('cache.insert')[0][1][1] is log.toc.toc")
+        c.let('NCB', len(bus.cbs))
+        c.ensure('fetcher-unregistered-log-still-listening', 'NCB == 1')
+        c.let('toc', c.getfield(log, 'toc'))
+        check_table(c, kind, N)
+    return k
+
+
+for _N in (2, 1, 0):
+    _log_refresh(_N, False)
+    _log_refresh(_N, True)
+
+
+XTF = PAR + ':_ExtendedTypeFetcher'
+PARAM_F = FETCH_F + [PAR + ':Param.refresh_toc', PAR + ':ParamTocElement.__init__', PAR + ':ParamTocElement.mark_persistent',
+                     XTF + '.__init__', XTF + '._new_packet_cb', XTF + '.request_extended_types', XTF + '.set_callback', XTF + '.run', XTF + '._close']
+
+
+def _param_refresh(N, fault):
+    @contract('C03', 'param.refresh_toc.n%d.%s' % (N, fault), PARAM_F,
+              clause='parameter table, from Param.refresh_toc (as called by the connection sequence) to the completion callback (which signals '
+                     '"connected"): the table is downloaded, then the persistence marker of exactly the entries the device flags as extended is '
+                     'requested, one request per such entry carrying its index; when the completion callback runs - exactly once, and not before '
+                     'the last marker arrived - Param.toc equals the device table and is_persistent() of every entry is the device\'s answer '
+                     '(False for entries that are not extended); fault scenario: %s' % fault,
+              bounded='%d entries, lengths %r, one type nibble per entry (flag bits symbolic); the marker-request thread is run one loop '
+                      'iteration at a time (sequential schedule: an iteration, then the reply)' % (N, SHAPES[:N]), max_paths=400)
+    def k(c):
+        kind = 'param'
+        c.virtual_time()
+        bus = Bus(c)
+        param = c.new(PAR + ':Param', bus.cf)
+        c.let('param', param), c.let('PORT', 2)
+        device_table(c, kind, N, wide_types=False)
+        for j in range(N):
+            c.int('pers%d' % j, 0, 255)          # the device's answer to "extended type of entry j"
+        done = c.ext('toc_done')
+        cache = c.ext('cache', returns={'fetch': None})
+        c.reset_trace()
+        c.call((param, 'refresh_toc'), done, cache)
+        c.ensure('refresh-no-exception', 'raised is None')
+        c.ensure('only-the-info-request-is-sent', "len(sent('cf.send_packet')) == 1 and len(sent('toc_done')) == 0")
+        serve_download(c, bus, kind, N, 0, fault == 'dup')
+        c.ensure('transmissions-are-info-and-one-per-entry', "len(sent('cf.send_packet')) == N + 1")
+        c.let('toc', c.getfield(param, 'toc'))
+        ext = [j for j in range(N) if c.concretize('(t%d & 0x10) != 0' % j)]
+        c.let('EXT', tuple(ext))
+        if not ext:
+            c.ensure('no-extended-entries-completion-at-once', "len(sent('toc_done')) == 1 and len(calls('thread:_ExtendedTypeFetcher')) == 0")
+        else:
+            c.ensure('completion-waits-for-the-markers', "len(sent('toc_done')) == 0")
+            c.ensure('marker-fetcher-started-once', "len(sent('thread:_ExtendedTypeFetcher.start')) == 1")
+            c.snapshot('xf', "sent('thread:_ExtendedTypeFetcher.start')[0][1][0]")
+            xf = c.get('xf')
+            c.snapshot('queued', 'tuple(bytes(p.data) for p in xf.request_queue.queue)')
+            c.ensure('one-marker-request-per-extended-entry-carrying-its-index', "queued == tuple(pack('<BH', 2, j) for j in EXT)")
+            c.ensure('marker-requests-on-misc-channel', 'all(p.port == 2 and p.channel == 3 for p in xf.request_queue.queue)')
+            for pos, j in enumerate(ext):
+                # one iteration of the thread's loop: it ends when the request has been handed to send_packet
+                c.set(xf, '_should_close', False)
+                bus.on_send = lambda: c.set(xf, '_should_close', True)
+                c.snapshot('before', "len(sent('cf.send_packet'))")
+                c.call((xf, 'run'))
+                bus.on_send = None
+                c.ensure('marker-request-%d-transmitted' % j, "raised is None and len(sent('cf.send_packet')) == before + 1")
+                last_request(c, N + 1 + pos)
+                c.ensure('marker-request-%d-layout' % j, "rq.port == 2 and rq.channel == 3 and bytes(rq.data) == pack('<BH', 2, %d) and "
+                         "tuple(rq_kw['expected_reply']) == tuple(rq.data)" % j)
+                if fault == 'stale' :
+                    # a reply for another index (e.g. a duplicate of an earlier answer) and a packet of another channel
+                    c.int('sx%d' % j, 0, 65535), c.int('sb%d' % j, 0, 255)
+                    c.require('sx%d != %d' % (j, j))
+                    bus.deliver(2, 3, "pack('<BHB', 2, sx%d, sb%d)" % (j, j), 'xstale%d' % j)
+                    bus.deliver(2, 1, "pack('<HB', %d, 1)" % j, 'xread%d' % j)
+                    c.ensure('nothing-changes-on-a-stale-marker-reply-%d' % j, "len(sent('toc_done')) == 0 and len(sent('cf.send_packet')) == before + 1")
+                bus.deliver(2, 3, "pack('<BHB', 2, %d, pers%d)" % (j, j), 'x%d' % j)
+                if fault == 'dup':
+                    bus.deliver(2, 3, "pack('<BHB', 2, %d, pers%d)" % (j, j), 'x%ddup' % j)
+                c.ensure('completion-after-the-last-marker-only-%d' % j, "len(sent('toc_done')) == %d" % (1 if pos == len(ext) - 1 else 0))
+                c.ensure('marker-request-lock-free-%d' % j, 'not xf._lock.locked()')
+            c.ensure('no-marker-request-left', 'xf.request_queue.qsize() == 0')
+        c.ensure('completion-signalled-exactly-once', "len(sent('toc_done')) == 1 and sent('toc_done')[0][1] == ()")
+        # the table, including the persistence markers, when "connected" is signalled
+        c.ensure('same-number-of-entries', 'sum(len(grp) for grp in toc.toc.values()) == N')
+        for j in range(N):
+            c.call((c.get('toc'), 'get_element'), c.get('G%d' % j), c.get('M%d' % j))
+            c.ensure('entry-%d-present' % j, 'raised is None and result is not None')
+            c.snapshot('e%d' % j, 'result')
+            if c.get('e%d' % j) is None:
+                continue
+            specs = element_spec(c, kind, 'e%d' % j, 't%d' % j, str(j), 'g%d' % j, 'n%d' % j)[:-1]
+            specs.append('e%d.is_persistent() == ((t%d & 0x10) != 0 and pers%d == 1)' % (j, j, j))
+            for h, s in enumerate(specs):
+                c.ensure('entry-%d-is-device-entry-%d' % (j, h), s)
+            c.call((c.get('toc'), 'get_element_by_id'), j)
+            c.ensure('lookup-by-index-%d-agrees' % j, 'raised is None and result is e%d' % j)
+            c.call((c.get('toc'), 'get_element_by_complete_name'), c.snapshot('cn', "G%d + '.' + M%d" % (j, j)))
+            c.ensure('lookup-by-complete-name-%d-agrees' % j, 'raised is None and result is e%d' % j)
+    return k
+
+
+for _N in (2, 1, 0):
+    for _fault in (('none', 'dup', 'stale') if _N else ('none',)):
+        _param_refresh(_N, _fault)
+
+
+@contract('C03', 'xtype.step', [XTF + '._new_packet_cb', XTF + '.__init__', XTF + '.set_callback', XTF + '._close', PAR + ':ParamTocElement.mark_persistent',
+                                TOC + ':Toc.get_element_by_id'],
+          clause='persistence markers, one received packet, any outstanding index r and any number k >= 1 of outstanding answers: a reply on the '
+                 'misc channel carrying index r marks exactly entry r persistent iff its marker byte is 1, counts it, and signals completion iff '
+                 'it was the last one (k == 1); any other packet (other index, other channel) changes nothing and signals nothing',
+          bounded='table of two entries (indices symbolic, 0..65535)')
+def xtype_step(c):
+    cf = c.ext('cf')
+    toc = c.new(TOC + ':Toc')
+    for j in range(2):
+        c.int('i%d' % j, 0, 65535)
+        e = c.new(ELEMENT['param'], c.get('i%d' % j), c.snapshot('d%d' % j, "bytearray([0x16]) + b'g' + bytes([0]) + bytes([%d]) + bytes([0])" % (97 + j)))
+        c.let('e%d' % j, e)
+        c.invoke((toc, 'add_element'), e)
+    c.require('i0 != i1')
+    xf = c.new(XTF, cf, toc)
+    c.let('xf', xf)
+    done = c.ext('done')
+    c.invoke((xf, 'set_callback'), done)
+    c.int('r', 0, 65535), c.int('k', 1, 70000)
+    c.require('r == i0 or r == i1')         # requests are made for entries of the table only
+    c.set(xf, '_req_param', c.get('r')), c.set(xf, '_count', c.get('k'))
+    c.invoke((c.getfield(xf, '_lock'), 'acquire'))          # the requesting thread holds the lock while it waits for the answer
+    c.int('chan', 0, 3), c.int('cmd', 0, 255), c.int('v', 0, 65535), c.int('b', 0, 255)
+    c.require('chan != 3 or cmd == 2')      # on the misc channel: marker replies (other commands: xtype.foreign-command, a FINDING)
+    pk = packet(c, 2, 0, "pack('<BHB', cmd, v, b)")
+    c.set(pk, 'channel', c.get('chan'))
+    c.reset_trace()
+    c.call((xf, '_new_packet_cb'), pk)
+    c.ensure('no-exception', 'raised is None')
+    c.snapshot('match', 'chan == 3 and v == r')
+    c.ensure('exactly-entry-r-marked-iff-marker-byte-is-1', 'e0.is_persistent() == (match and b == 1 and i0 == r) and e1.is_persistent() == (match and b == 1 and i1 == r)')
+    c.ensure('outstanding-count', 'xf._count == (k - 1 if match else k)')
+    c.ensure('completion-iff-last-answer', "len(sent('done')) == (1 if match and k == 1 else 0) and len(trace) == len(sent('done'))")
+    c.ensure('requester-released-iff-answered', 'xf._lock.locked() == (not match) and xf._req_param == (-1 if match else r)')
+
+
+# ------------------------------------------------------------------------------------------------ 8. the table-info reply
+
+def _info(kind):
+    @contract('C03', 'info.reply.%s' % kind, FETCH_F,
+              clause='the table-info reply: the announced number of entries (16 bit in the current generation - more than 255 entries are '
+                     'announced and accepted -, 8 bit in the legacy one) and checksum are taken over exactly, whatever follows them in the '
+                     'packet; the cache is asked for that checksum; on a miss entry 0 is requested, or, for an empty table, the empty '
+                     'table is complete at once (completion signalled exactly once, nothing requested)',
+              bounded='0, 2 or 4 bytes following the checksum in the reply (content symbolic)')
+    def k(c):
+        f, toc = fetcher(c, kind)
+        c.call((f, 'start'))
+        c.require('raised is None')
+        v2 = bool(c.concretize('ver >= 4'))
+        c.int('N', 0, 65535 if v2 else 255), c.int('crc', 0, 2 ** 32 - 1)
+        c.bytes('extra', c.choice('n_extra', [2, 0, 4]))
+        c.reset_trace()
+        c.call((f, '_new_packet_cb'), packet(c, PORT[kind], 0, ("pack('<BHI', 3, N, crc)" if v2 else "pack('<BBI', 1, N, crc)") + ' + extra'))
+        c.ensure('no-exception', 'raised is None')
+        c.ensure('size-and-checksum-taken-over', 'f.nbr_of_items == N and f._crc == crc')
+        c.ensure('cache-asked-for-that-checksum-first', "calls()[0] == 'cache.fetch' and sent('cache.fetch')[0][1] == (crc,)")
+        c.ensure('table-still-empty', 'len(toc.toc) == 0')
+        if c.concretize('N > 0'):
+            c.ensure('entry-0-requested-nothing-else', "calls() == ('cache.fetch', 'cf.send_packet') and f.requested_index == 0 and f.state == 'GET_TOC_ELEMENT'")
+            last_request(c, 0)
+            c.ensure('request-layout', "rq.port == PORT and rq.channel == 0 and bytes(rq.data) == " + ("pack('<BH', 2, 0)" if v2 else "pack('<BB', 0, 0)"))
+        else:
+            c.ensure('empty-table-complete-at-once', "calls() == ('cache.fetch', 'cache.insert', 'cf.remove_port_callback', 'finished')")
+            c.ensure('cache-fed-with-the-empty-table', "sent('cache.insert')[0][1][0] == crc and sent('cache.insert')[0][1][1] is toc.toc")
+    return k
+
+
+_info('log')
+_info('param')
+
+
+# ------------------------------------------------------------------------------------------------ 9. FINDING (unchanged tree)
+# _ExtendedTypeFetcher._new_packet_cb accepts ANY packet on the parameter misc channel whose bytes 1..2 equal the outstanding index
+# as the answer to its marker request - it does not look at the command byte.  A reply to an earlier request of another kind for
+# the same parameter (persistent_get_state = 4, get_default_value = 6, store/clear = 3/5, delayed from an earlier session on the
+# same object) or a "value updated" notification (1) that arrives while the marker of that parameter is outstanding is taken as
+# the marker: byte 3 of that packet decides is_persistent(), the genuine answer is then ignored.  The contract below states the
+# clause ("regardless of ... stale or delayed replies", "replies to earlier requests") and FAILS on the pinned tree; it replays
+# natively.  Until the maintainer of this directory has decided between a fix: commit and a known_findings.json entry
+#   {"property": "C03", "contract": "xtype.foreign-command", "obligation": "not-a-marker-reply-changes-nothing", ...}
+# it runs in the thorough tier only (`./vcheck C03 thorough --only xtype.foreign-command`); the ensure stays class P.
+PENDING_FINDING = {}      # recorded in /verif/known_findings.json
+
+
+@contract('C03', 'xtype.foreign-command', [XTF + '._new_packet_cb'],
+          clause='persistence markers: a misc-channel packet that is not a reply to a marker request (command byte != 2), e.g. a delayed '
+                 'reply to an earlier request of another kind or a value-updated notification for the same parameter, changes nothing',
+          bounded='table of one entry', **PENDING_FINDING)
+def xtype_foreign(c):
+    cf = c.ext('cf')
+    toc = c.new(TOC + ':Toc')
+    c.int('r', 0, 65535)
+    e = c.new(ELEMENT['param'], c.get('r'), c.snapshot('d', "bytearray([0x16]) + b'g' + bytes([0]) + b'n' + bytes([0])"))
+    c.let('e', e)
+    c.invoke((toc, 'add_element'), e)
+    xf = c.new(XTF, cf, toc)
+    c.let('xf', xf)
+    done = c.ext('done')
+    c.invoke((xf, 'set_callback'), done)
+    c.set(xf, '_req_param', c.get('r')), c.set(xf, '_count', 1)
+    c.invoke((c.getfield(xf, '_lock'), 'acquire'))
+    c.int('cmd', 0, 255), c.bytes('rest', 3)
+    c.require('cmd != 2')
+    pk = packet(c, 2, 3, "pack('<BH', cmd, r) + rest")
+    c.reset_trace()
+    c.call((xf, '_new_packet_cb'), pk)
+    c.ensure('no-exception', 'raised is None')
+    c.ensure('not-a-marker-reply-changes-nothing', "e.is_persistent() is False and xf._count == 1 and xf._req_param == r and xf._lock.locked() and len(trace) == 0")
